@@ -1086,8 +1086,8 @@ func (c *aspcontext) RequiredGas(input []byte) uint64 {
 }
 
 func (c *aspcontext) Run(ctx context.Context, input []byte) ([]byte, error) {
-	if input == nil || len(input) < 20 {
-		return nil, nil
+	if len(input) < 20 {
+		return nil, errors.New("invalid input length")
 	}
 	address := common.BytesToAddress(input[:20])
 	key := string(input[20:])
@@ -1108,8 +1108,8 @@ func (u *userOpSender) RequiredGas(input []byte) uint64 {
 }
 
 func (u *userOpSender) Run(ctx context.Context, input []byte) ([]byte, error) {
-	if len(input) == 0 {
-		return nil, nil
+	if len(input) != common.HashLength {
+		return nil, errors.New("invalid input length")
 	}
 
 	var userOpHash common.Hash
@@ -1142,8 +1142,8 @@ func (c *contextWriter) Run(ctx context.Context, input []byte) ([]byte, error) {
 		return nil, errors.New("context writer can only be reached by a call")
 	}
 
-	if input == nil || len(input) < 128 {
-		return nil, nil
+	if len(input) < 128 {
+		return nil, errors.New("invalid input length")
 	}
 
 	key, err := loadParamBytes(input, 0)
